@@ -609,6 +609,97 @@ fn projections(gv: &GraphView, run: &crate::trisim::RunResult, o: usize, acc: &m
     }
 }
 
+/// Joint projections: (received payload) - (a PRF/Random value the observer computed itself) and
+/// (received payload a) -+ (received payload b), for equal leaf types. They expose masks the observer can
+/// remove (it holds the key) and shares that add up to a secret. Also: for permutation-valued nodes the
+/// observer holds (u64[n] arrays that are permutations), the first entry of p_a o p_b^-1.
+fn joint_projections(gv: &GraphView, run: &crate::trisim::RunResult, o: usize, acc: &mut BTreeMap<(usize, usize), Vec<u32>>) {
+    let mut bump = |key: (usize, usize), cell: usize| {
+        acc.entry(key).or_insert_with(|| vec![0; 256])[cell & 0xff] += 1;
+    };
+    let leaf = |n: usize| -> Option<(Vec<u128>, &Type)> {
+        let t = &gv.nodes[n].ty;
+        if !is_leaf_type(t) {
+            return None;
+        }
+        match run.values[o][n].as_ref() {
+            Some(PV::Leaf(v)) => Some((crate::vals::dec(v, t), t)),
+            _ => None,
+        }
+    };
+    let received: Vec<usize> = run.msgs.iter().filter(|m| m.to == o).map(|m| m.node).collect();
+    let own_random: Vec<usize> = (0..gv.nodes.len()).filter(|n| matches!(gv.nodes[*n].op, Operation::PRF(_, _) | Operation::Random(_))).collect();
+    let mut budget = 400usize;
+    for (ri, r) in received.iter().enumerate() {
+        let (rv, rt) = match leaf(*r) {
+            Some(x) => x,
+            None => continue,
+        };
+        let mask = crate::vals::st_mask(rt.get_scalar_type());
+        for n in own_random.iter() {
+            if budget == 0 {
+                return;
+            }
+            if &gv.nodes[*n].ty != rt {
+                continue;
+            }
+            if let Some((nv, _)) = leaf(*n) {
+                budget -= 1;
+                let d = rv[0].wrapping_sub(nv[0]) & mask;
+                bump((1_000_000 + r * 1000 + (n % 1000), 0), d as usize);
+            }
+        }
+        for r2 in received.iter().skip(ri + 1) {
+            if budget == 0 {
+                return;
+            }
+            if &gv.nodes[*r2].ty != rt {
+                continue;
+            }
+            if let Some((v2, _)) = leaf(*r2) {
+                budget -= 1;
+                bump((2_000_000 + r * 1000 + (r2 % 1000), 0), (rv[0].wrapping_add(v2[0]) & mask) as usize);
+                bump((2_000_000 + r * 1000 + (r2 % 1000), 1), (rv[0].wrapping_sub(v2[0]) & mask) as usize);
+            }
+        }
+    }
+    // permutation-valued nodes held by the observer
+    let perms: Vec<(usize, Vec<usize>)> = (0..gv.nodes.len())
+        .filter_map(|n| {
+            let t = &gv.nodes[n].ty;
+            if let Type::Array(sh, st) = t {
+                if sh.len() == 1 && *st == ciphercore_base::data_types::UINT64 && sh[0] >= 2 && sh[0] <= 64 {
+                    if let Some((v, _)) = leaf(n) {
+                        let k = sh[0] as usize;
+                        let mut seen = vec![false; k];
+                        let ok = v.iter().all(|x| (*x as usize) < k && !std::mem::replace(&mut seen[*x as usize], true));
+                        if ok {
+                            return Some((n, v.iter().map(|x| *x as usize).collect()));
+                        }
+                    }
+                }
+            }
+            None
+        })
+        .collect();
+    let mut pbudget = 300usize;
+    for (i, (na, pa)) in perms.iter().enumerate() {
+        for (nb, pb) in perms.iter().skip(i + 1) {
+            if pa.len() != pb.len() || pbudget == 0 {
+                continue;
+            }
+            pbudget -= 1;
+            // (pa o pb^-1)[0] and [1]
+            let mut inv = vec![0usize; pb.len()];
+            for (idx, x) in pb.iter().enumerate() {
+                inv[*x] = idx;
+            }
+            bump((3_000_000 + na * 1000 + (nb % 1000), 0), pa[inv[0]]);
+            bump((3_000_000 + na * 1000 + (nb % 1000), 1), pa[inv[1]]);
+        }
+    }
+}
+
 pub struct SampledResult {
     pub violation: Option<(usize, String)>,
     pub runs: u64,
@@ -685,6 +776,7 @@ pub fn sampled_check(case: &Case, world_b: &[Value], n: usize, seed: u64) -> Sam
                     return res;
                 }
                 projections(&c.gv, &r, o, &mut acc[w]);
+                joint_projections(&c.gv, &r, o, &mut acc[w]);
             }
         }
         for (key, ha) in &acc[0] {
@@ -703,10 +795,17 @@ pub fn sampled_check(case: &Case, world_b: &[Value], n: usize, seed: u64) -> Sam
                     res.violation = Some((
                         o,
                         format!(
-                            "observer {}: the value it holds at node {} ({}; element/byte {}) is distributed differently in two worlds that agree on its inputs{} (two-sample chi2 = {:.0} over {} cells, {} tapes per world)",
+                            "observer {}: {} (element/byte {}) is distributed differently in two worlds that agree on its inputs{} (two-sample chi2 = {:.0} over {} cells, {} tapes per world)",
                             o,
-                            key.0,
-                            c.gv.nodes[key.0].op,
+                            if key.0 >= 3_000_000 {
+                                format!("the relative permutation of the permutation-valued nodes {} and ~{} it holds", (key.0 - 3_000_000) / 1000, (key.0 - 3_000_000) % 1000)
+                            } else if key.0 >= 2_000_000 {
+                                format!("the sum/difference of the payloads it receives at nodes {} and ~{}", (key.0 - 2_000_000) / 1000, (key.0 - 2_000_000) % 1000)
+                            } else if key.0 >= 1_000_000 {
+                                format!("the payload received at node {} minus its own PRF/Random value at node ~{}", (key.0 - 1_000_000) / 1000, (key.0 - 1_000_000) % 1000)
+                            } else {
+                                format!("the value it holds at node {} ({})", key.0, c.gv.nodes[key.0].op)
+                            },
                             key.1,
                             if recipient { " and output" } else { "" },
                             chi2,
@@ -728,7 +827,32 @@ pub fn gen_sampled(rng: &mut Rng) -> Option<(Case, Vec<Value>)> {
     let st = *rng.pick(&[UINT8, UINT16, INT32, INT64]);
     let shape = if rng.chance(1, 2) { vec![] } else { vec![2] };
     let t = crate::gen::mk_type(&shape, st);
-    let kind = rng.below(6);
+    let kind = rng.below(8);
+    if kind >= 6 {
+        // secure sort of a table with private bit keys (several radix rounds) - observers are non-recipients
+        let rows = 4 + rng.below(3);
+        let width = 5 + rng.below(2);
+        let kt = array_type(vec![rows, width], BIT);
+        let tt = ciphercore_base::data_types::named_tuple_type(vec![("key".to_string(), kt.clone())]);
+        let prog = Prog {
+            graphs: vec![GraphD {
+                steps: vec![Step { op: Operation::Input(tt.clone()), deps: vec![], gdeps: vec![] }, Step { op: Operation::Sort("key".into()), deps: vec![0], gdeps: vec![] }],
+                output: 1,
+                ..Default::default()
+            }],
+        };
+        prog.build().ok()?;
+        let owner = *rng.pick(&[Owner::Party(0), Owner::Party(1), Owner::Party(2)]);
+        let out_party = match owner {
+            Owner::Party(p) => p,
+            _ => 0,
+        };
+        let n = (rows * width) as usize;
+        let mk = |rng: &mut Rng| Value::from_vector(vec![enc(&(0..n).map(|_| rng.below(2) as u128).collect::<Vec<_>>(), BIT)]);
+        let a = vec![mk(rng)];
+        let b = vec![mk(rng)];
+        return Some((Case { prog, owners: vec![owner], outputs: vec![out_party], inline: Inline::Simple, inputs: a }, b));
+    }
     let mut steps = vec![Step { op: Operation::Input(t.clone()), deps: vec![], gdeps: vec![] }, Step { op: Operation::Input(t.clone()), deps: vec![], gdeps: vec![] }];
     let mut in_types = vec![t.clone(), t.clone()];
     match kind {
